@@ -75,8 +75,9 @@ StrFillOutcomes(e) ==
   LET a == e.pre  d == e.d  dmax == e.dmax
       isN == e.fn \in {"strnset_s", "wcsnset_s"}
       v == IF e.fn = "strzero_s" THEN 0 ELSE e.c
-  IN IF DestViol(e) # {} THEN Errs(DestViol(e), DestViolMem(e))
-     ELSE IF e.fn # "strzero_s" /\ (e.c > ValMax(e) \/ e.c < 0) THEN Errs({ESLEMAX}, Untouched(a))
+      valViol == {x \in {ESLEMAX} : e.fn # "strzero_s" /\ (e.c > ValMax(e) \/ e.c < 0)}
+  IN IF DestViol(e) # {} THEN Errs(DestViol(e) \cup valViol, DestViolMem(e))      \* which violation is met first is not fixed
+     ELSE IF valViol # {} THEN Errs({ESLEMAX}, Untouched(a))
      ELSE IF isN /\ e.n = HUGE THEN Errs({ESLEMAX, ESNOSPC}, Tmpl(a, [i \in Rng(d, dmax) |-> OZ({"C04"})]))
      ELSE IF isN /\ e.n > dmax THEN Errs({ESNOSPC}, Tmpl(a, [i \in Rng(d, dmax) |-> OZ({"C04"})]))
      ELSE LET len == ScanLen(a, d, dmax)
